@@ -47,6 +47,11 @@ pub struct Scenario {
     /// component of the driver's result into the top binade of the float type; 2: the smallest into the bottom one
     #[serde(default)]
     pub scale_mode: u8,
+    /// the closure evaluates the inexact family (products, quotients, sin, exp with non-dyadic constants at non-dyadic
+    /// points): no exact reference exists; the first fault-free result of the scenario is the reference for all its other
+    /// calls (both variants, every residue run), and scaling by a power of two must scale every component exactly
+    #[serde(default)]
+    pub inexact: bool,
 }
 
 impl Scenario {
@@ -59,6 +64,7 @@ impl Scenario {
         s.seed = mix(self.seed, 0xA17 + self.variant as u64);
         s.simple = false;
         s.scale_mode = 0;
+        s.inexact = false;
         if self.variant == 2 {
             match s.dim.as_str() {
                 "Dyn" => s.n += 1,
@@ -146,7 +152,14 @@ fn build_fx(sc: &Scenario) -> Fx {
         (a, b)
     };
     let ijk = if sc.driver == "partial_hessian" { [sc.m, 0, 0] } else { sc.ijk };
-    Fx { polys, a, b, ijk, scale: 0, style: r.next() }
+    let inexact = sc.inexact.then(|| (0..npoly).map(|_| Poly::gen(&mut r, nv, 2, false)).collect());
+    let (a, b) = if sc.inexact {
+        // non-dyadic points, kept small so that nothing overflows before the final scaling
+        (a.iter().map(|v: &f64| v * 0.37 + 0.21).collect(), b.iter().map(|d: &[f64; 2]| [d[0] * 0.3 + 0.1, d[1] * 0.7 - 0.2]).collect())
+    } else {
+        (a, b)
+    };
+    Fx { polys, a, b, ijk, scale: 0, style: r.next(), inexact }
 }
 
 /// the power of two the closure multiplies its result with (scale_mode), from the unscaled reference
@@ -160,6 +173,14 @@ fn scale_for(sc: &Scenario, unscaled: &[Part]) -> i32 {
     }
     let (top, bottom) = if sc.scalar == "f32" { (127, -126) } else { (1023, -1022) };
     let exp_of = |v: f64| v.log2().floor() as i32;
+    if sc.inexact {
+        if sc.scale_mode != 1 {
+            return 0;
+        }
+        // any one component into the top binade (larger ones overflow to infinity - identically in both runs)
+        let pick = mags[(mix(sc.seed, 0x5CA1E) % mags.len() as u64) as usize];
+        return (top - exp_of(pick)).clamp(0, top);
+    }
     // the factor 2^k itself has to be a normal number of the float type
     if sc.scale_mode == 1 {
         (top - exp_of(mags.iter().cloned().fold(0.0, f64::max))).clamp(bottom, top)
@@ -168,12 +189,13 @@ fn scale_for(sc: &Scenario, unscaled: &[Part]) -> i32 {
     }
 }
 
-fn apply_scale(parts: &[Part], k: i32) -> Vec<Part> {
+fn apply_scale(parts: &[Part], k: i32, f32_subject: bool) -> Vec<Part> {
     if k == 0 {
         return parts.to_vec();
     }
     let f = 2f64.powi(k);
-    let sc = |b: u64| exact::canon(f64::from_bits(b) * f);
+    // for f32 subjects the product is formed in f32 (it may overflow to infinity there and not in f64)
+    let sc = |b: u64| if f32_subject { exact::canon(((f64::from_bits(b) as f32) * (f as f32)) as f64) } else { exact::canon(f64::from_bits(b) * f) };
     parts.iter().map(|p| if p.0 == SHAPE { *p } else { (sc(p.0), p.1.map(sc), p.2.map(sc)) }).collect()
 }
 
@@ -256,10 +278,14 @@ fn show_part(p: &Part) -> String {
 }
 
 fn first_difference(got: &[Part], want: &[Part]) -> Option<String> {
+    first_difference_as(got, want, "the exact value")
+}
+
+fn first_difference_as(got: &[Part], want: &[Part], what: &str) -> Option<String> {
     if got.len() != want.len() {
         return Some(format!("the result has {} entries (shape markers included), the reference {}", got.len(), want.len()));
     }
-    got.iter().zip(want).position(|(g, w)| g != w).map(|i| format!("entry {i} of the flattened result is {}, the exact value is {}", show_part(&got[i]), show_part(&want[i])))
+    got.iter().zip(want).position(|(g, w)| g != w).map(|i| format!("entry {i} of the flattened result is {}, {what} is {}", show_part(&got[i]), show_part(&want[i])))
 }
 
 fn panic_text(p: &(dyn std::any::Any + Send)) -> String {
@@ -275,7 +301,9 @@ fn panic_text(p: &(dyn std::any::Any + Send)) -> String {
 }
 
 thread_local! {
-    static REFERENCE: std::cell::RefCell<Option<(Scenario, Vec<Part>, Vec<Part>, i32)>> = const { std::cell::RefCell::new(None) };
+    /// the references of the last few scenarios (a scenario and its two companions alternate); for the inexact family the
+    /// reference is the scenario's FIRST fault-free result, so it must survive the companions' turns
+    static REFERENCE: std::cell::RefCell<Vec<(Scenario, Vec<Part>, Vec<Part>, i32)>> = const { std::cell::RefCell::new(Vec::new()) };
     /// when set, every case executed on this thread is logged, in order
     static TRACE: std::cell::RefCell<Option<Vec<Case>>> = const { std::cell::RefCell::new(None) };
 }
@@ -295,13 +323,26 @@ pub fn run_case(case: &Case) -> Outcome {
     // the reference of a scenario is computed once for all its cases (they run back to back on one thread)
     let (want, want_inner, scale) = REFERENCE.with(|m| {
         let mut m = m.borrow_mut();
-        match m.as_ref() {
-            Some((s, a, b, k)) if s == sc => (a.clone(), b.clone(), *k),
-            _ => {
-                let unscaled = expected(sc, &fx);
+        match m.iter().find(|e| e.0 == *sc) {
+            Some((_, a, b, k)) => (a.clone(), b.clone(), *k),
+            None => {
+                // exact family: symbolic derivatives.  Inexact family: the result of a fault-free call of this very variant
+                // at scale 0 - every other call of the scenario (other variant, residue runs) must reproduce it bit for bit
+                let unscaled = if sc.inexact {
+                    let c0 = Ctx::new(Plan::None, 0);
+                    match catch_unwind(AssertUnwindSafe(|| call(&sc.driver, &sc.scalar, &sc.dim, &fx, None, case.fallible, &c0))) {
+                        Ok(Ok(parts)) => parts,
+                        _ => vec![(SHAPE, Some(u64::MAX), None)], // a failing base call: every comparison fails and is reported
+                    }
+                } else {
+                    expected(sc, &fx)
+                };
                 let k = scale_for(sc, &unscaled);
-                let (a, b) = (apply_scale(&unscaled, k), expected(sc_in, &fx_in));
-                *m = Some((sc.clone(), a.clone(), b.clone(), k));
+                let (a, b) = (apply_scale(&unscaled, k, sc.scalar == "f32"), expected(sc_in, &fx_in));
+                if m.len() >= 4 {
+                    m.remove(0);
+                }
+                m.push((sc.clone(), a.clone(), b.clone(), k));
                 (a, b, k)
             }
         }
@@ -321,7 +362,8 @@ pub fn run_case(case: &Case) -> Outcome {
         (Plan::None | Plan::ReenterEarly | Plan::ReenterLate, Ok(Ok(got))) => {
             out.kind = "ok".into();
             out.got = got.iter().map(show_part).collect();
-            if let Some(d) = first_difference(&got, &want) {
+            let what = if sc.inexact { "the scenario's first fault-free result (scaled by the same power of two)" } else { "the exact value" };
+            if let Some(d) = first_difference_as(&got, &want, what) {
                 let why = if reenter { Class::Reentrancy } else { Class::WrongValue };
                 out.violation = Some((why, format!("{name}: {d}{}", if reenter { " - after the closure called the same driver again" } else { "" })));
             } else if calls != 1 {
@@ -409,7 +451,8 @@ fn cases_for_value(seed: u64, i: u64, thorough: bool) -> Vec<Case> {
     } else {
         [0, 0, 0]
     };
-    let sc = Scenario { driver: driver.into(), scalar: scalar.into(), dim: if two || matches!(driver, "gradient" | "hessian") { dim.into() } else { "-".into() }, n, m, seed: r.next(), simple: r.chance(40), ijk, variant: 0, scale_mode: [0, 0, 0, 0, 0, 0, 1, 1, 2, 0][r.below(10)] };
+    let sc = Scenario { driver: driver.into(), scalar: scalar.into(), dim: if two || matches!(driver, "gradient" | "hessian") { dim.into() } else { "-".into() }, n, m, seed: r.next(), simple: r.chance(40), ijk, variant: 0, scale_mode: [0, 0, 0, 0, 0, 0, 1, 1, 2, 0][r.below(10)], inexact: false };
+    let sc = if r.chance(250) { Scenario { inexact: true, simple: false, scale_mode: [0, 1, 1][r.below(3)], ..sc } } else { sc };
     let mut cases = vec![];
     for fallible in [false, true] {
         cases.push(Case { sc: sc.clone(), fallible, plan: Plan::None });
@@ -869,7 +912,7 @@ fn main() {
     let wall = t0.elapsed().as_secs_f64();
     let rule = "one case = one call of one of the twenty drivers of the real crate (driver x {f64, f32, nested Dual64, nested DualDVec64 with possibly absent inner parts} x static / dynamic / mixed dimensions x seeded integer polynomial(s) x seeded dyadic point) with a closure \
 whose behaviour the simulator decides; per scenario, in this order on one thread: the infallible and the try_ variant fault-free, then EVERY plan of the table (closure returns Err before / after evaluating [try_ only], panics before / after evaluating, \
-calls the same driver again before / after evaluating), each followed by three fault-free calls (a companion scenario with other function, point and indices; one with other dynamic dimensions; the scenario itself). One scenario in three scales its results by a power of two into the top or bottom binade of the float type. Every component of every result is compared bit for bit with exact symbolic derivatives. distinct_nontrivial = distinct \
+calls the same driver again before / after evaluating), each followed by three fault-free calls (a companion scenario with other function, point and indices; one with other dynamic dimensions; the scenario itself). One scenario in four uses the inexact family (products, quotients, sin, exp at non-dyadic points: reference = the first fault-free call of the scenario; scaling by a power of two must be exact). One scenario in three scales its results by a power of two into the top or bottom binade of the float type. Every component of every result is compared bit for bit with exact symbolic derivatives. distinct_nontrivial = distinct \
 (driver, variant, type configuration, dimensions, function/point seed, plan, outcome kind, closure invocations) among cases with a plan other than none";
     let ev = serde_json::json!({
         "property_id": "C05",
@@ -896,7 +939,7 @@ calls the same driver again before / after evaluating), each followed by three f
             "determinism_check": { "scenarios": det_values, "cases": d1.cases, "thread_partitions": [threads, 3], "digest_equal": deterministic, "digest": format!("{:016x}", d1.digest) },
             "real_components": ["the twenty driver functions (seeding, extraction, transposes)", "all dual arithmetic the closure performs (DualVec, Dual2Vec, HyperDualVec, Dual, Dual2, Dual3, HyperDual, HyperHyperDual over f64, f32 and Dual64)", "nalgebra static and dynamic storage"],
             "stubbed_components": ["the user closure's behaviour besides computing: returning an error, panicking, re-entering the driver - and when"],
-            "invariants": ["K1 every component equals the exact reference in the documented position and orientation", "K2 try_ variants with a succeeding closure return what the infallible variants return", "K3 an Err of the closure comes back as that very error", "K4 a panic of the closure arrives with its payload and leaves nothing behind", "K5 a nested call of the same driver changes neither result", "K6 the closure is invoked exactly once"],
+            "invariants": ["K1 every component equals the exact reference in the documented position and orientation", "K2 try_ variants with a succeeding closure return what the infallible variants return", "K3 an Err of the closure comes back as that very error", "K4 a panic of the closure arrives with its payload and leaves nothing behind", "K5 a nested call of the same driver changes neither result", "K6 the closure is invoked exactly once", "K7 (inexact family) multiplying the function by a power of two multiplies every component of the result by it, exactly, up to the top of the float range"],
             "known_findings_hit": known_hits,
             "unlisted_finding_keys": unknown_keys,
             "fault_table_enumerated_completely_per_scenario": true,
